@@ -22,6 +22,25 @@ Theorem C36_answer_subset_of_signed_zone : forall O origins static ops n t rest 
 Proof. exact answer_subset_of_signed_zone. Qed.
 Print Assumptions C36_answer_subset_of_signed_zone.
 
+(* The same one level down, at ZoneStore::resolve (the only source of pkarr records for every DNS front
+   end), for every key, EVERY name and EVERY type including SOA and NS: after any history a record set
+   handed out for key K is never of type SOA or NS, and each of its records is justified as above
+   (empty origin). *)
+Theorem C36_store_resolve_subset_of_signed_zone : forall O origins static ops K qn t zl rs,
+  z32 O K = Some zl ->
+  snd (resolve O (final O origins static ops) K qn t) = Ok (Some rs) ->
+  t <> T_SOA /\ t <> T_NS /\
+  forall ttl rd, In (ttl, rd) (snd rs) ->
+    Justified O (puts ops) K zl [] (mkRR (lower_name (fst rs ++ [zl])) t ttl rd).
+Proof. exact store_resolve_subset_of_signed_zone. Qed.
+Print Assumptions C36_store_resolve_subset_of_signed_zone.
+
+Theorem C36_store_never_serves_soa_ns : forall O origins static ops K qn t rs,
+  t = T_SOA \/ t = T_NS ->
+  snd (resolve O (final O origins static ops) K qn t) <> Ok (Some rs).
+Proof. exact store_never_serves_soa_ns. Qed.
+Print Assumptions C36_store_never_serves_soa_ns.
+
 (* Publishing under k (accepted or not) never changes the answer to any query whose name does not
    resolve to k's zone, in every state whose store is keyed consistently ... *)
 Theorem C36_put_frames_other_keys : forall O origins static s k b n t,
